@@ -52,6 +52,8 @@ def run(ctx, ck) -> None:
     _application_shape(ck, table, row, diag, col)
 
     # ------------------------------------------------------------------ B2 structures
+    b2_decided = block_structures_by_evaluation(ctx, ck)
+    b2_start = len(ck.obs)
     for key in (('AbstractBlockOperator', 'in_structure'), ('AbstractBlockOperator', 'out_structure'), ('BlockRowOperator', 'out_structure'), ('BlockColumnOperator', 'in_structure')):
         cls = table.by_name(key[0])
         fn = cls.own.get(key[1])
@@ -62,6 +64,9 @@ def run(ctx, ck) -> None:
         t = _ret(fn)
         S = ('var', fn.args.args[0].arg)
         ck.expect('B2', t is not None and want_fn(t, S), fn, text, f'{key[0]}.{key[1]} returns {show(t)}: {text} is required', instance=f'{key[0]}.{key[1]}')
+    if b2_decided:
+        # (where the evaluation decides, the written form of the accessors is kept only where it confirms)
+        ck.obs[b2_start:] = [o for o in ck.obs[b2_start:] if o.status == 'ok']
     # ------------------------------------------------------------------ B3 transposes, B4 inverse, B5 dense forms
     for cls in (row, diag, col):
         fn = cls.own.get('transpose')
@@ -111,6 +116,104 @@ def construction_validation(ctx, ck, row, col) -> None:
         _validation(written, world, table, cls, fn, tag)
     # (where the construction is decided by evaluation, only the confirmations of the written form are kept)
     ck.obs.extend(o for o in written.obs if not (decided and o.status != 'ok'))
+
+
+def block_structures_by_evaluation(ctx, ck, rule: str = 'B2') -> bool:
+    """in_structure() / out_structure() of the three block classes evaluated (sa/axinterp.py) on blocks whose own structures
+    are arrays or pytrees, in list / dict / nested containers and with a single block: a block diagonal declares the
+    container of its blocks' structures on both sides, a row the container of the inputs and the (shared) output of its
+    first block, a column the (shared) input of its first block and the container of the outputs - a shared structure that
+    is itself a pytree is returned whole.  Returns True when decided."""
+    from ..axinterp import Interp, Obj, Raised, StructLeaf, Undecided, UNK
+    from .. import run as _run
+
+    if _run.CONTROL_EXPECT and not _run.CONTROL_EXPECT.endswith((rule, 'B2', 'O2')):
+        return False
+    world, table = ctx.world, ctx.table
+    generic = table.find('furax._base.dense.DenseBlockDiagonalOperator')
+    base = table.get(f'{CORE}.AbstractLinearOperator')
+    row, diag, col = (table.find(f'{BLOCKS}.Block{n}Operator') for n in ('Row', 'Diagonal', 'Column'))
+    if None in (generic, row, diag, col):
+        return False
+    s = StructLeaf(((frozenset({'s'}), 3),), 'float32')
+    t = StructLeaf(((frozenset({'t'}), 4),), 'float32')
+    u = StructLeaf(((frozenset({'u'}), 5),), 'float32')
+    tree = {'p': s, 'q': [t, u]}  # a structure that is itself a pytree
+    out_fn = base.own.get('out_structure')
+
+    def gen(name, i, o):
+        return Obj(generic, {'_in_structure': i, '__out__': o, 'name': name})
+
+    def mapped(container, f):
+        if isinstance(container, Obj):
+            return f(container)
+        if isinstance(container, dict):
+            return {k: mapped(v, f) for k, v in container.items()}
+        return type(container)(mapped(v, f) for v in container)
+
+    def first(container):
+        if isinstance(container, Obj):
+            return container
+        vals = [container[k] for k in sorted(container)] if isinstance(container, dict) else list(container)
+        return first(vals[0])
+
+    def same(a, b):
+        if isinstance(a, StructLeaf) or isinstance(b, StructLeaf):
+            return isinstance(a, StructLeaf) and isinstance(b, StructLeaf) and a == b and str(a.dtype) == str(b.dtype)
+        if type(a) is not type(b):
+            return False
+        if isinstance(a, dict):
+            return set(a) == set(b) and all(same(a[k], b[k]) for k in a)
+        if isinstance(a, (list, tuple)):
+            return len(a) == len(b) and all(same(x, y) for x, y in zip(a, b))
+        return a == b
+
+    problems: list[str] = []
+    n = 0
+    for cls, shared_side in ((diag, None), (row, 'out'), (col, 'in')):
+        for shared in (s, tree):
+            def blk(name, other):
+                if shared_side == 'out':
+                    return gen(name, other, shared)
+                if shared_side == 'in':
+                    return gen(name, shared, other)
+                return gen(name, other, shared if name == 'G0' else other)
+
+            containers = {
+                'a list of two': lambda: [blk('G0', t), blk('G1', u)],
+                'a dict of two': lambda: {'a': blk('G0', t), 'b': blk('G1', tree)},
+                'a nested list': lambda: [blk('G0', t), [blk('G1', u), blk('G2', s)]],
+                'a single block': lambda: [blk('G0', tree)],
+            }
+            for cname, build in containers.items():
+                blocks = build()
+                op = Obj(cls, {'blocks': blocks})
+                for side in ('in', 'out'):
+                    n += 1
+                    it = Interp(world, table, budget=40_000)
+                    if isinstance(out_fn, ast.FunctionDef):
+                        it.summaries[id(out_fn)] = lambda args, kwargs: args[0].attrs.get('__out__', UNK)
+                    what = f'{cls.name}({cname}, {"pytree" if shared is tree else "array"}-valued blocks).{side}_structure()'
+                    try:
+                        got = it.call_method(op, f'{side}_structure')
+                    except Raised as exc:
+                        problems.append(f'{what} raises {exc.name}')
+                        continue
+                    except Undecided as exc:
+                        ck.note(f'{rule}: {what} could not be evaluated: {exc}' + (f' [{it.degraded[0]}]' if it.degraded else ''))
+                        return False
+                    if it.degraded or got is UNK:
+                        ck.note(f'{rule}: {what} could not be evaluated: {(it.degraded or ["unknown result"])[0]}')
+                        return False
+                    pick = (lambda o: o.attrs['_in_structure']) if side == 'in' else (lambda o: o.attrs['__out__'])
+                    want = pick(first(blocks)) if shared_side == side else mapped(blocks, pick)
+                    if not same(got, want):
+                        problems.append(f'{what} is {got!r}, expected {want!r}' + (' (the structure shared by the blocks, whole)' if shared_side == side else ' (the container of the blocks\' structures)'))
+    ck.expect(rule, not problems, row.node, f'on {n} block operators (array- and pytree-valued blocks; list, dict, nested and single-block containers) the declared structures are the container of the '
+              'blocks\' structures, or the whole structure shared by the blocks on the shared side of a row / column',
+              f'{problems[0] if problems else ""} ({len(problems)} of {n})', instance='block structures by evaluation', semantic=True)
+    ck.floor(rule, n, 40, 'block structures evaluated')
+    return True
 
 
 def _validation_by_evaluation(ctx, ck, row, col) -> bool:
